@@ -8,6 +8,7 @@ import Balm.Impl.SkipExcl
 import Balm.Impl.Nfvs
 import Balm.Impl.Block
 import Balm.Impl.ASeeds
+import Balm.Impl.SymLoop
 import Balm.TransNet
 /-!
 # `balmdriver` – line protocol between the Python harness and the Lean model
@@ -392,6 +393,18 @@ def handle (S : Session) (toks : List String) : Session × String :=
       let (d, o) := expandBlock S.ctx S.diag sz
       ({ S with diag := d }, showOutcome o ++ " " ++ dumpDiag d)
     | none => bad
+  | "SYMSEEDS" :: mode :: sp :: rest =>
+    -- mode: "loop0" / "loop1" = compute_attractors_symbolic(seeds_only = 0/1), "node" = seed logic of node_attractor_seeds
+    let motT := rest.takeWhile (· ≠ ";")
+    let candT := (rest.dropWhile (· ≠ ";")).drop 1
+    match parseSpace n sp, parseSpaces n motT, candT.mapM (parseState n) with
+    | some p, some ms, some cs =>
+      let out := if mode == "node" then nodeSeeds N p ms cs else symbolicSeeds N p ms cs (mode == "loop1")
+      let sets := match out.sets with
+        | none => "none"
+        | some l => String.intercalate " / " (l.map showAttr)
+      (S, String.intercalate "," (out.seeds.map showState) ++ " | " ++ sets)
+    | _, _, _ => bad
   | "ASEEDS" :: sz :: rest =>
     let minsT := rest.takeWhile (· ≠ ";")
     let bits := (rest.dropWhile (· ≠ ";")).drop 1
